@@ -20,6 +20,7 @@ could object to is hidden - the helper's code is now judged in the context of ea
 import copy
 import re
 
+KNOWN_LOCAL_TRAITS = set()   # traits declared by the reviewed crate itself: none
 _PROM = re.compile(r"::promoted\[(\d+)\]")
 MAX_BLOCKS = 400
 
@@ -36,8 +37,70 @@ def _callee_key(t):
     return None
 
 
-def _identity_inst(t, callee):
+def _trait_call_self(t, callee, new_traits):
+    """for a call of a method of a NEW crate-local trait: the concrete Self type when the remaining generic arguments are the
+    caller's parameters (None = not such a call / not an identity instantiation).  -> (self type dict, is_provided)"""
+    f = t["func"]
+    if f.get("trait") not in new_traits:
+        return None
+    g = f.get("gargs") or []
+    if not g or any(a.get("k") not in ("param", "closure") for a in g[1:]):
+        return None
+    st = f.get("self_ty") or g[0]
+    if callee.get("impl_trait") in new_traits:
+        isf = callee.get("impl_self") or {}
+        # `impl<I, P, H> T<I, P, H> for Q<I, P, H>` called on Q<I, P, H>: same parameters under the same names
+        return (st, False) if isf.get("s") == st.get("s") else None
+    if callee.get("parent") in new_traits:
+        return (st, True)
+    return None
+
+
+def _subst_self(x, selfty):
+    """replace the type parameter `Self` below x by the concrete type (dicts and their printed forms)"""
+    if isinstance(x, dict):
+        if x.get("k") == "param" and x.get("name") == "Self":
+            x.clear()
+            x.update(copy.deepcopy(selfty))
+            return
+        for k, v in list(x.items()):
+            if isinstance(v, str):
+                if k in ("s", "ty") and "Self" in v:
+                    x[k] = re.sub(r"(?<![A-Za-z0-9_])Self(?![A-Za-z0-9_])", selfty["s"], v)
+            else:
+                _subst_self(v, selfty)
+    elif isinstance(x, list):
+        for v in x:
+            _subst_self(v, selfty)
+
+
+def _reresolve(body, j, new_traits):
+    """calls of new-trait methods whose Self type became concrete by substitution are bound to the impl's method (or stay
+    with the provided one)"""
+    for b in body["blocks"]:
+        t = b["term"]
+        if t["k"] != "call" or not t.get("func"):
+            continue
+        f = t["func"]
+        if f.get("trait") not in new_traits:
+            continue
+        st = f.get("self_ty") or {}
+        if st.get("k") != "adt":
+            continue
+        key = None
+        for im in j["impls"]:
+            if im.get("trait") == f["trait"] and (im.get("self") or {}).get("path") == st.get("path"):
+                for it in im.get("items", []):
+                    if it.get("name") == f.get("name"):
+                        key = it["key"]
+        f["resolved"] = {"key": key or f["key"], "krate": f.get("krate"), "local": True, "kind": "Item",
+                         "is_default_method": key is None, "reresolved": True}
+
+
+def _identity_inst(t, callee, new_traits=()):
     """the call instantiates the callee's generic parameters by the caller's parameters of the same name"""
+    if callee.get("impl_trait") in new_traits or (callee.get("parent") in new_traits and not callee.get("impl_self")):
+        return _trait_call_self(t, callee, new_traits) is not None
     g = t["func"].get("gargs") or []
     own = [n for n in (callee.get("generics") or []) if not n.startswith("'")]
     names = []
@@ -154,7 +217,7 @@ def _clone_closures(j, caller, callee, counter):
     return ren
 
 
-def _splice(caller, bb, callee, j=None, counter=None):
+def _splice(caller, bb, callee, j=None, counter=None, selfty=None, new_traits=()):
     """replace the call terminating caller block bb by the body of callee"""
     cb = caller["body"]
     t = cb["blocks"][bb]["term"]
@@ -163,6 +226,14 @@ def _splice(caller, bb, callee, j=None, counter=None):
         ren = _clone_closures(j, caller, callee, counter)
         if ren:
             _rename_keys(body, ren)
+            if selfty is not None:
+                for g in j["fns"]:
+                    if g["key"] in ren.values() and g.get("body"):
+                        _subst_self(g["body"], selfty)
+                        _reresolve(g["body"], j, new_traits)
+    if selfty is not None:
+        _subst_self(body, selfty)
+        _reresolve(body, j, new_traits)
     loff = len(cb["locals"])
     boff = len(cb["blocks"])
     poff = len(caller.get("promoted") or [])
@@ -218,11 +289,24 @@ def inline_new_helpers(j, known):
     """j: facts dict (mutated).  Returns a report dict."""
     fns = {f["key"]: f for f in j["fns"]}
     has_closure = {f.get("parent_fn") for f in j["fns"] if f.get("kind") == "Closure"}
+    # the reviewed crate declares no trait of its own: every crate-local trait is new (a private helper trait), and its
+    # methods - provided ones and the impls' - are helpers like any other new private function
+    new_traits = set()
+    for im in j["impls"]:
+        tr = im.get("trait")
+        if tr and any((g.get("parent") == tr and not g.get("impl_self")) or False for g in j["fns"]):
+            new_traits.add(tr)
+    for g in j["fns"]:
+        for b in (g.get("body") or {}).get("blocks", []):
+            fu = b["term"].get("func") if b["term"]["k"] == "call" else None
+            if fu and fu.get("trait") and fu.get("local") and fu.get("krate") == j.get("crate"):
+                new_traits.add(fu["trait"])
+    new_traits -= KNOWN_LOCAL_TRAITS
     cand = {}
     for k, f in fns.items():
         if k in known or f.get("kind") not in ("Fn", "AssocFn") or f.get("exported") or not f.get("body"):
             continue
-        if f.get("impl_trait") or f.get("auto_derived"):
+        if f.get("auto_derived") or (f.get("impl_trait") and f.get("impl_trait") not in new_traits):
             continue
         cand[k] = f
     report = {"candidates": sorted(cand), "inlined": [], "kept": [], "skipped": []}
@@ -290,11 +374,12 @@ def inline_new_helpers(j, known):
                 ck = _callee_key(t)
                 if ck in cand and ck != f["key"]:
                     cal = cand[ck]
-                    if b["cleanup"] or not _identity_inst(t, cal) or len(body["blocks"]) + len(cal["body"]["blocks"]) > MAX_BLOCKS \
+                    if b["cleanup"] or not _identity_inst(t, cal, new_traits) or len(body["blocks"]) + len(cal["body"]["blocks"]) > MAX_BLOCKS \
                             or len(t["args"]) != cal["body"]["arg_count"]:
                         not_inlined_site.add(ck)
                     else:
-                        _splice(f, i, cal, j, counter)
+                        ts = _trait_call_self(t, cal, new_traits)
+                        _splice(f, i, cal, j, counter, selfty=ts[0] if ts and ts[1] else None, new_traits=new_traits)
                         report["inlined"].append((ck, f["key"]))
             i += 1
     handled = set()
@@ -494,3 +579,45 @@ def alias_moved(j, known, sigs):
         if drop:
             j["fns"] = [g for g in j["fns"] if not (g["key"] in drop or any(g["key"].startswith(d + "::{") for d in drop))]
     return report
+
+
+# ------------------------------------------------------------------------------------------
+# module layout: a reviewed type that now lives in another module (file split, module renamed)
+# ------------------------------------------------------------------------------------------
+def _strip_mods(s):
+    import re
+    return re.sub(r'(?:[A-Za-z_][A-Za-z0-9_]*::)+', '', s or '')
+
+
+def adt_shape(a):
+    """what identifies a type apart from where it lives: kind, generics, variant and field names, field types by leaf name"""
+    return [a.get("kind"), list(a.get("generics") or []),
+            [[v.get("name"), [[f.get("name"), _strip_mods((f.get("ty") or {}).get("s"))] for f in v.get("fields", [])]]
+             for v in a.get("variants", [])]]
+
+
+def relocate_adts(text, j, shapes):
+    """A reviewed type whose path is gone while exactly one new type of the same name and shape exists elsewhere in the
+    crate has moved (its file was split off, its module renamed).  Every rule names types by their reviewed path, so the
+    whole fact base is rewritten to that path; the functions, impls and closures defined on the type follow with it.
+    Returns (text, report)."""
+    import re
+    present = {a["path"]: a for a in j["adts"]}
+    missing = [p for p in sorted(shapes) if p not in present]
+    new = {p: a for p, a in present.items() if p not in shapes}
+    ren = {}
+    for o in missing:
+        leaf = o.rsplit("::", 1)[-1]
+        cands = [p for p, a in new.items() if p.rsplit("::", 1)[-1] == leaf and adt_shape(a) == shapes[o]]
+        if len(cands) == 1:
+            ren[cands[0]] = o
+    # one new path may stand for only one reviewed type
+    if len(set(ren.values())) != len(ren):
+        return text, []
+    report = []
+    # longest first so that a path that is a suffix of another one is not rewritten inside it
+    for n in sorted(ren, key=len, reverse=True):
+        o = ren[n]
+        text = re.sub(r'(?<![A-Za-z0-9_:])' + re.escape(n) + r'(?![A-Za-z0-9_])', o, text)
+        report.append((o, n))
+    return text, report
